@@ -204,6 +204,22 @@ C17_GeneratorsRestored ==
   (Quiet /\ nrestarts > 0) => \A n \in Names, c \in Ctxs :
      LET g == LatestSpawn(n, c) IN (g # 0 /\ Accepted(g) /\ log[g].j < inc) => \E x \in Idx : log[x].g = g /\ log[x].k = "start" /\ log[x].j = inc
 
+\* ---------------------------------------------------------------- liveness (MC_proc_live_g.cfg, no VIEW, no CONSTRAINT)
+\* the serve loop and the generator tasks run by themselves; clients, restarts and respawn cycles are bounded
+Fairness == /\ WF_vars(ReplayStep \/ Threshold \/ LiveStep)
+            /\ WF_vars(\E g \in DOMAIN work : Recv(g) \/ Stop(g) \/ Panic(g) \/ FeedInput(g) \/ Respawn(g))
+FairSpec == Spec /\ Fairness
+L_Quiet == <>[]Quiet
+\* C18 as progress: every spawn of the current incarnation ends up answered (.start or .spawn.error), every started
+\* terminating pipeline ends up with its .stop; C17: the accepted latest spawns end up started again after a restart
+L_EverySpawnAnswered ==
+  <>[](\A g \in SpawnsIdx : log[g].j = inc => \E x \in Idx : log[x].g = g /\ log[x].k \in {"start", "spawn.error"})
+L_StartedTaskStops ==
+  <>[](\A g \in DOMAIN work : ~Duplex(log[g].sk) => (LET sq == Of(g, inc) IN Len(sq) > 0 /\ log[sq[Len(sq)]].k = "stop"))
+L_Restored ==
+  <>[](nrestarts > 0 => \A n \in Names, c \in Ctxs :
+     LET g == LatestSpawn(n, c) IN (g # 0 /\ Accepted(g) /\ log[g].j < inc) => \E x \in Idx : log[x].g = g /\ log[x].k = "start" /\ log[x].j = inc)
+
 GenInv == (Gen /\ nclient = MaxClient) => PrintT(<<"ACTS", ToJson(hist)>>)
 mcview == <<log, phase, T, srvPos, compact, gens, work, respawn, nclient, nrestarts, inc>>
 =============================================================================
